@@ -18,6 +18,8 @@ CLAIMS = {
  "C06": ("refinement theorems: EOK iff the complete result fits, and then dest is exactly the standard function's result (strcpy, strncpy, strcat); reference semantics evaluated on the implementation for copy and mem families", "Lean 4 refinement to list specs + differential reference"),
  "C07": ("overlap-detected and disjoint-never-rejected theorems for all placements of strcpy/wcscpy/strcat, witness for the slack-fill finding; every offset of src relative to dest swept in one arena; memmove family by correspondence only so far", "Lean 4 bumper invariant + placement sweep"),
  "C08": ("zero-tail theorems through both slack strategies (memset > 0x20, byte loop) for strcpy/strncpy/strcat/wcscpy; result length x dmax sweep across the 0x20 switch with dirty buffers", "Lean 4 zero-fill lemmas + dirty-buffer sweep"),
+ "C09": ("the engine's directive parser proved to reject every format in which libc's printf grammar finds an n conversion (all strings, by induction); pre-scan soundness for the 21 libc-delegating entry points proved under two syntactic hypotheses, with kernel-decided witnesses for the general failure; all 28 entry points executed with sentinel-address varargs against the models and plain glibc", "Lean 4 induction over format strings + sentinel-vararg correspondence"),
+ "C12": ("schedule-independent theorem: two calls with disjoint footprints under ANY interleaving equal the calls run alone, footprints derived from the no-stray theorems (strcpy_s instance), witness for the shared-scratch defect class; the library's writable segments are snapshotted around every representative call and must be bit-identical, N-thread stress as the failing-schedule search", "Lean 4 interleaving theorem + static-segment snapshots + thread stress"),
  "C19": ("results of timingsafe_bcmp/memcmp proved against the unsigned first-difference spec, and the source-level trace (addresses + branch decisions) proved independent of the contents for every n; valgrind-lackey traces of the compiled function compared across contents as an assumption validator", "Lean 4 induction (Int32 arithmetic, trace observer) + lackey trace comparison"),
  "C13": ("the registration state machine proved for every history (dispatch rule, returns-previous, NULL selects default, kind independence, thread isolation, fresh threads); histories executed with real pthreads", "Lean 4 induction over registration histories + pthread correspondence"),
 }
